@@ -135,6 +135,12 @@ def _check_rows(case, acc):
         exp = R([r.astype(dt2) for r in rows_np], dtype=dt2)
         cmp(acc, f"astype({dt2})", exp, observe(lambda: mk().astype(np.dtype(dt2)), dt=True))
     cmp(acc, "astype-leaves-source", R(rows), observe(lambda: (lambda x: (x.astype(np.float64), x)[1])(mk())))
+    if n >= 2:
+        # type conversion as the FIRST thing asked of a row selection (nothing has read it yet)
+        cmp(acc, "astype of an unread row selection", R([r.astype(np.float64) for r in rows_np[::-1]], dtype="float64"),
+            observe(lambda: mk()[::-1].astype(np.float64), dt=True))
+        cmp(acc, "astype of an unread row list", R([r.astype(np.float64) for r in (rows_np[-1], rows_np[0])], dtype="float64"),
+            observe(lambda: mk()[[n - 1, 0]].astype(np.float64), dt=True))
     # equality
     cmp(acc, "equals-same", S(True), observe(lambda: bool(mk().equals(RaggedArray(flat.copy(), list(lens))))))
     if size:
